@@ -759,6 +759,20 @@ def gen_cases(rng, tier):
         cases.append("h32 %d %s" % ((1 << 32) - 1 - d, hx(_pattern(rng, n))))
         cases.append("h64 %d %s" % (rng.next(), hx(_pattern(rng, n))))
         cases.append("h32 %d %s" % (rng.next() & 0xFFFFFFFF, hx(_pattern(rng, n))))
+    # final folding: every combination of boundary values in the 16 bit lanes of the accumulator (the carries
+    # of ones_complement's folding steps happen exactly when lane sums cross 0xffff / 0x1ffff / 0x2fffe ...)
+    lanes = [0, 1, 2, 0x7FFF, 0x8000, 0xFFFD, 0xFFFE, 0xFFFF]
+    for a in lanes:
+        for b in lanes:
+            s32 = (a << 16) | b
+            for data in ("-", "0001", "ffff"):
+                cases.append("h32 %d %s" % (s32, data))
+            for c in lanes:
+                for d in lanes:
+                    s64 = (a << 48) | (b << 32) | (c << 16) | d
+                    cases.append("h64 %d -" % s64)
+                    if rng.chance(1, 4):
+                        cases.append("h64 %d %s" % (s64, rng.choice(["0001", "ffff", "fffe0001", "0202fefeffffffff"])))
     # random lengths
     for _ in range(3000 if not big else 100000):
         n = rng.range(0, 2048) if rng.chance(1, 10) else rng.range(0, 100)
